@@ -88,6 +88,8 @@ var deanchored = []string{
 	"(*" + modulePath + "/internal/server.Target).isGatewayTimeout",
 	"(*" + modulePath + "/internal/server.Target).isClientCancellation",
 	"(*" + modulePath + "/internal/server.Target).isDraining",
+	"(*" + modulePath + "/internal/server.Buffer).discardSpill",
+	"(*" + modulePath + "/internal/server.Router).findOrCreateService",
 }
 
 // inlineSeq numbers expansions across all rounds of one run (labels and temporaries must stay unique when a later round
